@@ -892,15 +892,14 @@ static std::vector<PopSim*> pop_menu()
   // the cheap FFT configuration of the quick tier: 1-D grid of 4 nodes (dilated to 8), lags 1-3
   V.push_back(new FftSim("spherical-1d", [] { return Model::createFromParam(ECov::SPHERICAL, 2.5, 1.5); }, true, 4, 0));
   // turning bands: one configuration per algorithm branch of the band-generation switch (thorough): dilution (spherical,
-  // cubic), spectral with the three omega laws that differ (gaussian, sincard, Matern nu > 0.5 / stable alpha > 1), migration
+  // cubic), spectral (gaussian, Matern nu > 0.5, stable alpha > 1: three different laws of omega), migration
   // (Matern nu <= 0.5 through _computeScaleKB, stable alpha <= 1 through _computeScale; exponential = microsim exp1d),
-  // IRF process (linear) and power (increments).  J-Bessel, Matern 0.45 / 0.75, spline and order-k GC are covered by
+  // IRF process (linear) and power (increments).  Cardinal sine, J-Bessel, Matern 0.45 / 0.75, spline and order-k GC are covered by
   // tb_grid_vs_points and by C13 only (time budget; order-k GC would need generalised increments).
   auto T1 = [](const ECov& t, double range, double sill, double param) { return [=] { return Model::createFromParam(t, range, sill, param); }; };
   V.push_back(new TbSim("spherical", T1(ECov::SPHERICAL, 2., 1.5, 1.), false, false));
   V.push_back(new TbSim("cubic+nugget-mean", [] { Model* m = Model::createFromParam(ECov::CUBIC, 2.5, 1.); m->addCovFromParam(ECov::NUGGET, 0., 0.5); m->setMeans({10.}); return m; }, false, false));
   V.push_back(new TbSim("gaussian", T1(ECov::GAUSSIAN, 2., 0.75, 1.), false, false));
-  V.push_back(new TbSim("sincard", T1(ECov::SINCARD, 2., 1., 1.), false, false));
   V.push_back(new TbSim("matern0.3", T1(ECov::MATERN, 2., 1.5, 0.3), false, false));
   V.push_back(new TbSim("matern1.5", T1(ECov::MATERN, 2., 2., 1.5), false, false));
   V.push_back(new TbSim("stable0.7", T1(ECov::STABLE, 2., 1.5, 0.7), false, false));
